@@ -16,7 +16,7 @@ from mc.ref import shapes, ttlv
 from mc.report import Reporter, Part
 from mc.par import pmap
 
-from kmip.core import enums, primitives, utils as cutils, exceptions
+from kmip.core import enums, primitives, utils as cutils, exceptions, attributes
 from kmip.core.messages import messages
 
 KV = shapes.KV
@@ -769,6 +769,152 @@ def check_responses(part):
     part.sample({'server_responses_round_tripped': n})
 
 
+
+# ---------------------------------------------------------------------------------------------
+# constructed headers, batch items and messages (classes without __eq__: compared field by field)
+# ---------------------------------------------------------------------------------------------
+def _same_field(a, b, kv):
+    if a is None or b is None:
+        return (a is None and b is None) or (a in (None, []) and b in (None, []))
+    if isinstance(a, (list, tuple)):
+        return isinstance(b, (list, tuple)) and len(a) == len(b) and all(
+            _same_field(x, y, kv) for x, y in zip(a, b))
+    if isinstance(a, primitives.Base):
+        if not isinstance(b, primitives.Base):
+            return False
+        try:
+            return shapes.encode(a, kv) == shapes.encode(b, kv)
+        except Exception:   # noqa
+            return False
+    return a == b
+
+
+def _fieldwise_roundtrip(cls, kwargs, kv):
+    """(status, detail). A constructor field set by the caller must come back from the decode; a field
+    that does not is 'version-gated' only when some KMIP version writes it."""
+    try:
+        obj = cls(**kwargs)
+        b = shapes.encode(obj, kv)
+    except Exception as e:   # noqa
+        return 'refused', '%s: %s' % (type(e).__name__, str(e)[:100])
+    try:
+        r = cls()
+        r.read(cutils.BytearrayStream(b), kmip_version=kv)
+    except Exception as e:   # noqa
+        return 'decode-fails', '%s: %s' % (type(e).__name__, str(e)[:120])
+    try:
+        b2 = shapes.encode(r, kv)
+    except Exception as e:   # noqa
+        return 'reencode-fails', '%s: %s' % (type(e).__name__, str(e)[:100])
+    if b2 != b:
+        return 'reencode-differs', '%s vs %s' % (b.hex()[:80], b2.hex()[:80])
+    gated = False
+    for f, v in kwargs.items():
+        if _same_field(getattr(obj, f), getattr(r, f), kv):
+            continue
+        if getattr(r, f) in (None, []):
+            without = cls(**{k: (None if k == f else x) for k, x in kwargs.items()})
+            if _on_wire_somewhere(obj, without):
+                gated = True
+                continue
+            return 'field-lost', "field '%s' is never written (no KMIP version's encoding carries it)" % f
+        return 'not-equal', "field '%s' decodes to another value" % f
+    return ('ok-version-gated' if gated else 'ok'), ''
+
+
+def _lattice(menu):
+    keys = list(menu)
+    for combo in itertools.product(*[menu[k] for k in keys]):
+        yield dict(zip(keys, combo))
+
+
+def message_part_cases(v):
+    """(class, label, kwargs) for protocol version v = (major, minor)."""
+    from kmip.core.messages import contents as C
+    from kmip.core import objects as cobjects
+    E = enums
+    pv = C.ProtocolVersion(*v)
+    up = cobjects.Credential(E.CredentialType.USERNAME_AND_PASSWORD,
+                             cobjects.UsernamePasswordCredential('user', 'pw'))
+    dev = cobjects.Credential(E.CredentialType.DEVICE, cobjects.DeviceCredential(
+        device_serial_number='s', password='p', device_identifier='d', network_identifier='n',
+        machine_identifier='m', media_identifier='e'))
+    att = cobjects.Credential(E.CredentialType.ATTESTATION, cobjects.AttestationCredential(
+        nonce=cobjects.Nonce(nonce_id=b'\x01', nonce_value=b'\x02' * 9),
+        attestation_type=E.AttestationType.TPM_QUOTE, attestation_measurement=b'\xff'))
+    for kw in _lattice({
+            'server_hashed_password': [None, b'\x01' * 8, b''],
+            'server_correlation_value': [None, C.ServerCorrelationValue('scv')]}):
+        yield messages.ResponseHeader, 'response-header', dict(
+            kw, protocol_version=pv, time_stamp=C.TimeStamp(W.T0), batch_count=C.BatchCount(1))
+    for kw in _lattice({
+            'maximum_response_size': [None, C.MaximumResponseSize(4096)],
+            'asynchronous_indicator': [None, C.AsynchronousIndicator(False), C.AsynchronousIndicator(True)],
+            'authentication': [None, C.Authentication([up]), C.Authentication([up, dev]),
+                               C.Authentication([att])],
+            'batch_error_cont_option': [None, C.BatchErrorContinuationOption(
+                E.BatchErrorContinuationOption.CONTINUE)],
+            'batch_order_option': [None, C.BatchOrderOption(True)],
+            'time_stamp': [None, C.TimeStamp(0)]}):
+        yield messages.RequestHeader, 'request-header', dict(kw, protocol_version=pv,
+                                                            batch_count=C.BatchCount(2))
+    OP = E.Operation
+    from kmip.core.messages import payloads as P
+    resp_payloads = {
+        OP.ACTIVATE: lambda: P.ActivateResponsePayload(attributes.UniqueIdentifier('1')),
+        OP.DESTROY: lambda: P.DestroyResponsePayload(attributes.UniqueIdentifier('1')),
+        OP.CREATE: lambda: P.CreateResponsePayload(E.ObjectType.SYMMETRIC_KEY, '1'),
+        OP.LOCATE: lambda: P.LocateResponsePayload(unique_identifiers=['1', '2']),
+    }
+    for op, mk in resp_payloads.items():
+        for kw in _lattice({
+                'operation': [C.Operation(op)],
+                'unique_batch_item_id': [None, C.UniqueBatchItemID(b'\x01'), C.UniqueBatchItemID(b'')],
+                'result_status': [C.ResultStatus(s) for s in E.ResultStatus],
+                'result_reason': [None, C.ResultReason(E.ResultReason.ITEM_NOT_FOUND)],
+                'result_message': [None, C.ResultMessage(''), C.ResultMessage('café ☃')],
+                'async_correlation_value': [None, C.AsynchronousCorrelationValue(b'\x07' * 3)],
+                'response_payload': [None, 'payload'],
+                'message_extension': [None]}):
+            if kw['response_payload'] == 'payload':
+                kw['response_payload'] = mk()
+            yield messages.ResponseBatchItem, 'response-item:' + op.name, kw
+    for kw in _lattice({
+            'operation': [None],
+            'unique_batch_item_id': [None, C.UniqueBatchItemID(b'\x01')],
+            'result_status': [C.ResultStatus(s) for s in E.ResultStatus],
+            'result_reason': [None, C.ResultReason(E.ResultReason.GENERAL_FAILURE)],
+            'result_message': [None, C.ResultMessage('m')]}):
+        yield messages.ResponseBatchItem, 'response-item:no-operation', kw
+    items = request_items()
+    for name in ('create', 'get', 'get_noid', 'locate', 'destroy_noid', 'set_20'):
+        op, payload = items[name][0], items[name][1]
+        for kw in _lattice({
+                'operation': [C.Operation(op)],
+                'unique_batch_item_id': [None, C.UniqueBatchItemID(b'\x01'), C.UniqueBatchItemID(b'')],
+                'request_payload': [payload],
+                'ephemeral': [None, True, False]}):
+            yield messages.RequestBatchItem, 'request-item:' + name, kw
+
+
+def check_message_parts(part):
+    for v, kv in zip(W.VERSIONS, KV):
+        for cls, label, kw in message_part_cases(v):
+            part.count('roundtrips')
+            part.count('message_part_cases')
+            st, detail = _fieldwise_roundtrip(cls, kw, kv)
+            part.count('status_' + st)
+            part.counters.setdefault('_out', set()).add(('part:' + label, st))
+            if st not in ('ok', 'ok-version-gated', 'refused'):
+                present = sorted(k for k, x in kw.items() if x is not None)
+                bad = detail.split("'")[1] if "'" in detail else ''
+                part.violation("%s|%s|%s|%s" % (cls.__name__, st, label.split(':')[0], bad),
+                               "%s (%s) under KMIP %s with %s: %s (%s)" % (
+                                   cls.__name__, label, VNAME[kv], present, st, detail),
+                               {'message_part': label, 'version': VNAME[kv], 'present': present,
+                                'status': st})
+
+
 # ---------------------------------------------------------------------------------------------
 def _worker(task):
     kind, arg, sweep = task
@@ -794,6 +940,8 @@ def _worker(task):
             check_requests(part)
         elif kind == 'responses':
             check_responses(part)
+        elif kind == 'message_parts':
+            check_message_parts(part)
     finally:
         logging.disable(logging.NOTSET)
     out = part.as_dict()
@@ -856,7 +1004,8 @@ def run(tier, seed):
     names = structure_names()
     n = 28
     tasks = [('classes', names[i::n], True) for i in range(n)]
-    tasks += [('primitives', None, True), ('requests', None, True), ('responses', None, True)]
+    tasks += [('primitives', None, True), ('requests', None, True), ('responses', None, True),
+              ('message_parts', None, True)]
     outs = set()
     for part in pmap(_worker, tasks):
         outs.update(tuple(o) for o in part.pop('out', []))
@@ -903,6 +1052,10 @@ def replay(doc):
             check_primitives(part)
         elif doc.get('message') == 'request':
             check_requests(part)
+        elif 'message_part' in doc:
+            check_message_parts(part)
+        elif 'attribute' in doc:
+            check_hand_attributes(part)
         else:
             check_responses(part)
     finally:
